@@ -76,6 +76,15 @@ def rule_template(chk):
     chk.decide(not exits, 'stage-wrapper', 'no-early-exit', node=exits[0] if exits else w, file=TPL, func='stage wrapper',
                detail_bad='the stage wrapper contains `%s`: it runs the stages of all destinations in sequence, so leaving it for one destination (e.g. an empty array) also skips every '
                           'destination that sorts after it' % (U(exits[0]) if exits else ''), detail_ok='straight through all destinations')
+    # an exception raised by a Python hook the wrapper calls (py_stage / py_initialize of a stepper, a user callback) must reach the caller of step(): a `noexcept`
+    # wrapper only prints it and carries on with the remaining stages on a half-updated state
+    exc = getattr(w, 'cy_except', None)
+    swallowed = [f_.name for f_ in meths.values() if getattr(f_, 'cy_except', None) is not None and f_.cy_except.get('value') is None and f_.cy_except.get('check') is False
+                 and not getattr(f_, 'cy_nogil', False)]
+    chk.decide(exc is not None and not swallowed, 'stage-wrapper', 'exceptions-propagate', node=w, file=TPL, func='stage wrapper',
+               detail_bad='%s of the compiled Integrator %s declared noexcept: an exception raised in a Python hook called from there is printed and ignored, the step goes on' % (
+                   ', '.join('the stage wrapper' if n_ == w.name else n_ for n_ in swallowed), 'is' if len(swallowed) == 1 else 'are'),
+               detail_ok='no method of the compiled Integrator that runs Python code is declared noexcept')
     g = C.build_cfg(w)
     # destination binding
     dsts = [n for n in g.nodes if n.ast is not None and isinstance(n.ast, ast.Assign) and U(n.ast.targets[0]) == 'dst']
